@@ -19,6 +19,7 @@ import (
 )
 
 type Engine struct {
+	known    *KnownFindings // recorded findings (read-only)
 	repo     string
 	verifDir string
 	pkgs     []*packages.Package
